@@ -8,30 +8,36 @@ import (
 
 // Scenario is the replayable input of one end-to-end run.
 type Scenario struct {
-	Seed         uint64       `json:"seed"`
-	Mode         string       `json:"mode"` // exact: control operations never overlap a write; racy: they run concurrently
-	TLS          bool         `json:"tls"`  // rtsps + SRTP
-	Cap          int          `json:"cap"`  // Server.WriteQueueSize
-	MaxPkt       int          `json:"max_pkt,omitempty"`
-	Medias       [][]int      `json:"medias"` // payload types of every media
-	N            int          `json:"n"`
-	ArbSeq       bool         `json:"arb_seq,omitempty"`   // arbitrary sequence numbers (reliable transports only)
-	Pace         int          `json:"pace,omitempty"`      // yield 50µs every Pace writes
-	Relay        string       `json:"relay,omitempty"`     // "", "tcp", "udp": publisher → server session → stream
-	PubCap       int          `json:"pub_cap,omitempty"`   // relay: the publishing client\'s WriteQueueSize
-	PubRaw       bool         `json:"pub_raw,omitempty"`   // relay over TCP: hand-written publisher (explicit interleaved channels)
-	PubChans     []int        `json:"pub_chans,omitempty"` // … first interleaved id requested per SETUP (-1: none)
-	PubOrder     []int        `json:"pub_order,omitempty"` // … SETUP order of the medias
-	PubLoss      int          `json:"pub_loss,omitempty"`  // relay over UDP: faults on the publisher → server hop, per mille
-	PubDup       int          `json:"pub_dup,omitempty"`
-	PubReorder   int          `json:"pub_reorder,omitempty"`
-	Readers      []ReaderSpec `json:"readers"`
-	NoModel      bool         `json:"no_model,omitempty"`      // property oracle only (very long runs)
-	SizeSweep    bool         `json:"size_sweep,omitempty"`    // write number i has i+1 payload bytes
-	SRTPWrap     bool         `json:"srtp_wrap,omitempty"`     // TLS: let sequence numbers wrap (see srtpMissedWrap)
-	SeqStart     int          `json:"seq_start,omitempty"`     // first sequence number of every format (0: seeded)
-	ExpectDesync bool         `json:"expect_desync,omitempty"` // reproduces the known finding c01-srtp-roc-desync
-	SizeTop      bool         `json:"size_top,omitempty"`      // every other write has a total RTP size in [MaxPacketSize-16, MaxPacketSize+4]
+	Seed             uint64       `json:"seed"`
+	Mode             string       `json:"mode"` // exact: control operations never overlap a write; racy: they run concurrently
+	TLS              bool         `json:"tls"`  // rtsps + SRTP
+	Cap              int          `json:"cap"`  // Server.WriteQueueSize
+	MaxPkt           int          `json:"max_pkt,omitempty"`
+	Medias           [][]int      `json:"medias"` // payload types of every media
+	N                int          `json:"n"`
+	ArbSeq           bool         `json:"arb_seq,omitempty"`   // arbitrary sequence numbers (reliable transports only)
+	Pace             int          `json:"pace,omitempty"`      // yield 50µs every Pace writes
+	Relay            string       `json:"relay,omitempty"`     // "", "tcp", "udp": publisher → server session → stream
+	PubCap           int          `json:"pub_cap,omitempty"`   // relay: the publishing client\'s WriteQueueSize
+	PubRaw           bool         `json:"pub_raw,omitempty"`   // relay over TCP: hand-written publisher (explicit interleaved channels)
+	PubChans         []int        `json:"pub_chans,omitempty"` // … first interleaved id requested per SETUP (-1: none)
+	PubOrder         []int        `json:"pub_order,omitempty"` // … SETUP order of the medias
+	PubLoss          int          `json:"pub_loss,omitempty"`  // relay over UDP: faults on the publisher → server hop, per mille
+	PubDup           int          `json:"pub_dup,omitempty"`
+	PubReorder       int          `json:"pub_reorder,omitempty"`
+	Readers          []ReaderSpec `json:"readers"`
+	NoModel          bool         `json:"no_model,omitempty"`           // property oracle only (very long runs)
+	SizeSweep        bool         `json:"size_sweep,omitempty"`         // write number i has i+1 payload bytes
+	SRTPWrap         bool         `json:"srtp_wrap,omitempty"`          // TLS: let sequence numbers wrap (see srtpMissedWrap)
+	SeqStart         int          `json:"seq_start,omitempty"`          // first sequence number of every format (0: seeded)
+	ExpectDesync     bool         `json:"expect_desync,omitempty"`      // reproduces the known finding c01-srtp-roc-desync
+	SizeTop          bool         `json:"size_top,omitempty"`           // every other write has a total RTP size in [MaxPacketSize-16, MaxPacketSize+4]
+	PlainHeaders     bool         `json:"plain_headers,omitempty"`      // no padding / extension / CSRC in the written packets
+	NoPauseHandler   bool         `json:"no_pause_handler,omitempty"`   // the server's handler has no OnPause: PAUSE is answered 501
+	BackChannel      bool         `json:"back_channel,omitempty"`       // the stream has one more media, a back channel (client → server inside a PLAY session)
+	NoPlayHandler    bool         `json:"no_play_handler,omitempty"`    // … and no OnPlay either (publish-only server)
+	PubSteps         []Step       `json:"pub_steps,omitempty"`          // relay: what the publisher does before write At: pause-refused
+	PubRecordRefused int          `json:"pub_record_refused,omitempty"` // relay: so many RECORD requests are refused before the accepted one
 }
 
 type ReaderSpec struct {
@@ -45,12 +51,13 @@ type ReaderSpec struct {
 	Raw         bool   `json:"raw,omitempty"`          // hand-written TCP reader (explicit interleaved channels, no PAUSE)
 	Chans       []int  `json:"chans,omitempty"`        // raw: first interleaved id requested per SETUP (-1: none)
 	KeepaliveUs int    `json:"keepalive_us,omitempty"` // raw: an OPTIONS / GET_PARAMETER every so many µs while the stream flows
+	Back        bool   `json:"back,omitempty"`         // the reader also sets the back channel up and writes to it (plan op `back`: a burst of 25 packets)
 }
 
 // Step is one scheduled operation: before write number At.
 type Step struct {
 	At int    `json:"at"`
-	Op string `json:"op"` // setup | play | replay (PLAY while playing) | pause | leave | gate | ungate
+	Op string `json:"op"` // setup | play | replay (PLAY while playing) | pause | pause-refused | play-refused | back | leave | gate | ungate
 }
 
 // pktMeta is one packet the writer will write.
@@ -62,8 +69,9 @@ type pktMeta struct {
 	ts     uint32
 	marker bool
 	size   int
-	mayErr bool   // larger than the configured maximum: the write may (must, on an intact tree) return an error
-	ssrcIn uint32 // what the caller puts into the SSRC field (must be overwritten)
+	extras hdrExtras // padding, header extension, CSRCs
+	mayErr bool      // larger than the configured maximum: the write may (must, on an intact tree) return an error
+	ssrcIn uint32    // what the caller puts into the SSRC field (must be overwritten)
 }
 
 const hdrSize = 12
@@ -165,6 +173,11 @@ func genPackets(sc *Scenario) []pktMeta {
 		}
 		if p.size < 1 {
 			p.size = 1
+		}
+		// RTP header features: they take their bytes from the payload, the total size stays what was drawn
+		if !sc.PlainHeaders {
+			p.extras = genExtras(rng, p.size-1)
+			p.size -= p.extras.bytes()
 		}
 		out[i] = p
 	}
